@@ -420,6 +420,17 @@ fn build_enum(
     let syn_type = sa_type_to_syn_type(type_)?;
     let name_ident = str_to_ident(name.as_str());
 
+    // The values are written as `<value> as _`, which silently truncates: make sure they fit.
+    if let Some((min, max)) = integer_range(type_) {
+        for (field, value) in fields {
+            if !(min..=max).contains(&(*value as i128)) {
+                anyhow::bail!(
+                    "value {value} of case `{field}` of enum `{path}` does not fit its type `{type_}`"
+                );
+            }
+        }
+    }
+
     let visibility = visibility_to_tokens(visibility);
     let doc = doc_to_tokens(false, doc.as_deref());
 
@@ -485,6 +496,29 @@ fn build_enum(
         }
         #size_check_impl
         #singleton_impl
+    })
+}
+
+/// The range of values of a predefined integer type, if `ty` is one.
+fn integer_range(ty: &Type) -> Option<(i128, i128)> {
+    let Type::Raw(path) = ty else {
+        return None;
+    };
+    if path.len() != 1 {
+        return None;
+    }
+    Some(match path.last()?.as_str() {
+        "u8" => (u8::MIN.into(), u8::MAX.into()),
+        "u16" => (u16::MIN.into(), u16::MAX.into()),
+        "u32" => (u32::MIN.into(), u32::MAX.into()),
+        "u64" => (u64::MIN.into(), u64::MAX.into()),
+        "u128" => (0, i128::MAX),
+        "i8" => (i8::MIN.into(), i8::MAX.into()),
+        "i16" => (i16::MIN.into(), i16::MAX.into()),
+        "i32" => (i32::MIN.into(), i32::MAX.into()),
+        "i64" => (i64::MIN.into(), i64::MAX.into()),
+        "i128" => (i128::MIN, i128::MAX),
+        _ => return None,
     })
 }
 
